@@ -1,5 +1,3 @@
-//go:build verifwip
-
 package apps
 
 // Engine "pfm" (C43): packet-forward middleware on four real ibctesting chains in a line
@@ -23,6 +21,7 @@ import (
 	abci "github.com/cometbft/cometbft/abci/types"
 
 	sdk "github.com/cosmos/cosmos-sdk/types"
+	authtypes "github.com/cosmos/cosmos-sdk/x/auth/types"
 	banktypes "github.com/cosmos/cosmos-sdk/x/bank/types"
 
 	packetforward "github.com/cosmos/ibc-go/v11/modules/apps/packet-forward-middleware"
@@ -51,6 +50,9 @@ func newPfmEnv() *pfmEnv {
 	for i := 0; i < 3; i++ {
 		e.P[i] = ibctesting.NewTransferPath(e.L[i], e.L[i+1])
 		e.P[i].Setup()
+	}
+	for _, m := range []string{"distribution", "fee_collector", "bonded_tokens_pool", "not_bonded_tokens_pool", "mint"} {
+		pfmNoisyAddrs = append(pfmNoisyAddrs, authtypes.NewModuleAddress(m).String())
 	}
 	pfmOnce = e
 	return e
@@ -144,11 +146,23 @@ func (e *pfmEnv) snap() pfmSnap {
 			return false
 		})
 		for _, coin := range app.TransferKeeper.GetAllTotalEscrowed(ctx) {
-			s.escrow[fmt.Sprintf("%d|%s", i, coin.Denom)] = coin.Amount.String()
+			s.escrow[fmt.Sprintf("E%d|%s", i, coin.Denom)] = coin.Amount.String()
 		}
 	}
 	return s
 }
+
+// pfmNoise: inflation / staking rewards move the native staking token of every chain on every block
+func pfmNoise(k string) bool {
+	for _, a := range pfmNoisyAddrs {
+		if strings.Contains(k, "|"+a+"|") {
+			return true
+		}
+	}
+	return strings.HasSuffix(k, "|"+sdk.DefaultBondDenom) && strings.Count(k, "|") == 1 && !strings.HasPrefix(k, "E")
+}
+
+var pfmNoisyAddrs []string
 
 func diffMaps(a, b map[string]string) []string {
 	var out []string
@@ -167,7 +181,7 @@ func diffMaps(a, b map[string]string) []string {
 		if vb == "" {
 			vb = "0"
 		}
-		if va != vb {
+		if va != vb && !pfmNoise(k) {
 			out = append(out, k+": "+va+" -> "+vb)
 		}
 	}
@@ -341,13 +355,13 @@ func (e *pfmEnv) run(sc pfmScenario) (res pfmResult) {
 	// classification
 	rcvKey := ""
 	for k := range after.bal {
-		if strings.Contains(k, "|"+receiver+"|") {
+		if strings.HasPrefix(k, fmt.Sprintf("%d|%s|", last, receiver)) && before.bal[k] != after.bal[k] {
 			rcvKey = k
 		}
 	}
 	senderKey := fmt.Sprintf("%d|%s|%s", sc.start, e.addr(sc.start).String(), coin.Denom)
 	switch {
-	case rcvKey != "" && before.bal[rcvKey] != after.bal[rcvKey]:
+	case rcvKey != "":
 		res.class = "delivered"
 	case before.bal[senderKey] == after.bal[senderKey]:
 		res.class = "refunded"
